@@ -509,6 +509,9 @@ func (w *World) exec(op Op) StepResult {
 		if w.typeFlags(w.slots[a].MemoryTypeIndex())&simvk.PropHostVisible == 0 {
 			return skip() // mapping non-host-visible memory is a caller error
 		}
+		if w.inPendingMove(a) {
+			return skip() // documented: Map of an allocation being relocated blocks until EndDefragPass
+		}
 		_, res, err := w.slots[a].Map()
 		if err == nil {
 			w.sinfo[a].userMaps++
@@ -923,6 +926,14 @@ func (w *World) execDefrag(op Op) StepResult {
 	case "dpass":
 		if !di.begun || di.inPass {
 			return skip()
+		}
+		// API domain: Map holds a read lock on the Allocation until Unmap, and BeginDefragPass
+		// write-locks the allocations it relocates, so a pass cannot begin (it would block) while
+		// the caller has outstanding user mappings
+		for i := range w.sinfo {
+			if w.sinfo[i].live && w.sinfo[i].userMaps > 0 {
+				return skip()
+			}
 		}
 		raw := di.ctx.BeginDefragPass()
 		di.raw = raw
